@@ -94,6 +94,24 @@ pub struct KnownFinding {
     /// how many times the (schedule dependent) replay is attempted
     #[serde(default)]
     pub replay_attempts: Option<u32>,
+    /// whole-system findings: the finding is specific to this plan (part of the signature)
+    #[serde(default)]
+    pub plan: Option<String>,
+    /// other properties whose whole-system checks can run into this finding (crash-class findings
+    /// end the case whatever property the case was generated for)
+    #[serde(default)]
+    pub also: Vec<String>,
+}
+
+impl KnownFinding {
+    /// Does this listed (unfixed) finding cover a violation with signature `sig` of property `viol_prop`
+    /// seen by the check of `check_prop` in a case running `plan`?
+    pub fn covers(&self, check_prop: &str, viol_prop: &str, sig: &str, plan: &str) -> bool {
+        self.status == "known"
+            && self.signature == sig
+            && self.plan.as_deref().map(|p| p == plan).unwrap_or(true)
+            && (self.property == check_prop || self.property == viol_prop || self.also.iter().any(|a| a == check_prop))
+    }
 }
 
 pub fn load_known_findings() -> Vec<KnownFinding> {
@@ -134,6 +152,8 @@ pub struct Check {
     /// child mode: run only this section, as shard `i` of `n` (single thread, thread index = i)
     pub shard: Option<(String, usize, usize)>,
     shard_out: Option<Value>,
+    /// properties whose violations this check also reports (whole-system checks sharing an oracle)
+    pub also_properties: Vec<String>,
 }
 
 fn hash_value<T: Serialize>(v: &T) -> u64 {
@@ -182,6 +202,7 @@ impl Check {
             shrink_iters: 2000,
             shard: None,
             shard_out: None,
+            also_properties: vec![],
         }
     }
 
@@ -679,11 +700,13 @@ impl Check {
         // Known findings: print one line per listed finding that was hit.
         let mut unknown_known = vec![];
         for (sig, n) in &known_total {
-            if let Some(k) = self
+            let listed = self
                 .known
                 .iter()
                 .find(|k| k.property == self.id && k.signature == *sig && k.status == "known")
-            {
+                .or_else(|| self.known.iter().find(|k| k.signature == *sig && k.status == "known" && k.also.iter().any(|a| *a == self.id)))
+                .or_else(|| self.known.iter().find(|k| k.signature == *sig && k.status == "known" && self.also_properties.iter().any(|a| *a == k.property)));
+            if let Some(k) = listed {
                 if self.known_printed.insert(sig.clone()) {
                     println!("KNOWN-FINDING: property={} {} [{}; {} generated cases hit it]", self.id, k.description, sig, n);
                 }
